@@ -5,4 +5,4 @@ def register(pid):
         REGISTRY[pid] = fn
         return fn
     return deco
-from . import flow, slots, fs, wiring, audit, paths, tempdir, expand, join, stream      # noqa: E402,F401
+from . import flow, slots, fs, wiring, audit, paths, tempdir, expand, join, stream, components, report      # noqa: E402,F401
